@@ -437,6 +437,14 @@ Fixpoint take_oracle (ts : list ty) (orc : list Z) : res (list value * list Z) :
       end
   end.
 
+Fixpoint dup_reg_dsts (ds : list operand) : bool :=
+  match ds with
+  | nil => false
+  | Oreg r :: rest =>
+      existsb (fun o => match o with Oreg r' => Pos.eqb r r' | _ => false end) rest || dup_reg_dsts rest
+  | _ :: rest => dup_reg_dsts rest
+  end.
+
 Definition exec_call (s : state) (f : frame) (ops : list operand) : res state :=
   match ops with
   | Oref pi :: Oref fi :: rest =>
@@ -446,6 +454,9 @@ Definition exec_call (s : state) (f : frame) (ops : list operand) : res state :=
           let dsts := firstn nres rest in
           let args := skipn nres rest in
           if negb (Nat.eqb (length dsts) nres) then Er E_bad_program else
+          (* the order in which several results are written is not specified: a register may be
+             the destination of one result only *)
+          if dup_reg_dsts dsts then Er E_bad_program else
           match nth_error prog fi with
           | Some (Ifunc fn) =>
               if negb (tys_eqb (p_res p) (f_res fn) && tys_eqb (p_args p) (map snd (f_args fn)))
